@@ -138,6 +138,57 @@ def parse_raw(s, ml):
     return c
 
 
+# ------------------------------------------------------------------ the parsed request (harness traceql "ast") -> model/Traceql.v script
+CMP = {"=": "CEq", "!=": "CNeq", "<": "CLt", "<=": "CLe", ">": "CGt", ">=": "CGe", "=~": "CRe", "!~": "CNre"}
+ANDOR = {"": "AONone", "&&": "AOAnd", "||": "AOOr"}
+AGG = {"count": "AgCount", "sum": "AgSum", "min": "AgMin", "max": "AgMax", "avg": "AgAvg"}
+TABLES = ["tempo_traces_attrs_gin", "tempo_traces_attrs_gin_dist", "tempo_traces", "tempo_traces_dist", "tempo_traces_kv_dist"]
+
+
+def sx_value(v, ml):
+    hs = lambda h: ml.s(bytes.fromhex(h))
+    return "(%s %s %s %s %s %s)" % (ml.s(v["t"]), ml.s(v["f"]), ml_opt(v["s"], hs), ml_opt(v["unq"], hs), ml_opt(v["ffmt"], ml.s),
+                                    ml_opt(v["dur"], lambda z: "%d" % z))
+
+
+def sx_exp(e, ml):
+    if (e["head"] is None) == (e["chead"] is None):
+        raise Untranslatable("AttrSelectorExp with both/neither Head and ComplexHead")
+    if e["head"] is not None:
+        t = e["head"]
+        h = "(HTerm %s %s %s)" % (ml.s(t["label"]), CMP[t["op"]], sx_value(t["val"], ml))
+    else:
+        h = "(HParen %s)" % sx_exp(e["chead"], ml)
+    return "(AExp %s %s %s)" % (h, ANDOR[e["andor"]], ml_opt(e["tail"], lambda x: sx_exp(x, ml)))
+
+
+def sx_script(q, ml):
+    h = q["head"]
+    a = h["agg"]
+    agg = ml_opt(a, lambda a: "(%s %s %s %s %s %s %s)" % (AGG[a["fn"]], ml.s(a["attr"]), CMP[a["cmp"]], ml.s(a["num"]), ml.s(a["meas"]),
+                                                         ml_opt(a["ffmt"], ml.s), ml_opt(a["durf"], ml.s)))
+    return "(Script %s %s %s %s)" % (ml_opt(h["attr"], lambda x: sx_exp(x, ml)), agg, ANDOR[q["andor"]], ml_opt(q["tail"], lambda x: sx_script(x, ml)))
+
+
+def sx_ctx(c, ml):
+    return "(%d %d %s %s %s %s %d %s %d %d %s %s)" % (
+        c["from_ns"], c["to_ns"], ml.s(c["from_date"]), ml.s(c["to_date"]), ml.s(c["ffd_from"]), ml.s(c["ffd_to"]), c["limit"],
+        "t" if c["is_cluster"] else "f", c["rf_max"], c["rf_i"], ml_list([ml.s(x) for x in (c.get("cached") or [])]), " ".join(ml.s(t) for t in TABLES))
+
+
+def canon(ps):
+    """adjacent text pieces merged: two trees that print the same text with the same value pieces, whatever the granularity of their nodes"""
+    out = []
+    for k, b in ps:
+        if k == "T" and out and out[-1][0] == "T":
+            out[-1] = ("T", out[-1][1] + b)
+        elif k == "T" and not b:
+            continue
+        else:
+            out.append((k, b))
+    return out
+
+
 LOPS = {"and": "OAnd", "or": "OOr", "==": "OEq", "!=": "ONeq", "<": "OLt", "<=": "OLe", ">": "OGt", ">=": "OGe"}
 JK = {"array": "JArray", "any left": "JAnyLeft"}
 
@@ -316,6 +367,7 @@ def run(ck, pairs, tag, describe, num_queries=None):
     ml = Ml()
     stats = {}
     rows, sqls, untrans, rejected = [], {}, {}, {}
+    mrows, untrans_ast = [], {}
     for r in reqs:
         o = planned.get(r["id"])
         obs = (o or {}).get("obs") or []
@@ -331,6 +383,11 @@ def run(ck, pairs, tag, describe, num_queries=None):
             continue
         sqls[r["id"]] = sql
         rows.append("T %d %s" % (r["id"], term))
+        try:
+            mode = {"plan": "MSearch", "tags": "MTags"}.get(r["mode"]) or "(MValues %s)" % ml.s(r["key"])
+            mrows.append("M %d %s %s %s" % (r["id"], mode, sx_ctx(o["ctx"], ml), sx_script(o["ast"], ml)))
+        except (Untranslatable, KeyError, TypeError) as e:
+            untrans_ast[r["id"]] = str(e)
     prow = []
     for c, b, ci, bi in plist:
         if ci in sqls and bi in sqls:
@@ -338,17 +395,19 @@ def run(ck, pairs, tag, describe, num_queries=None):
 
     data = os.path.join(ck.work, "tq_%s_trees.txt" % tag)
     with open(data, "w") as f:
-        f.write("\n".join(rows + sorted(set(prow))) + "\n")
+        f.write("\n".join(rows + sorted(set(prow)) + mrows) + "\n")
     txt = "let data_file = %s\n" % json.dumps(data)
     rc, out = ck.ocaml_eval("c10tq_" + tag, "ExtractC10Tq.v", "c10tq", txt, "c10tq_driver.ml")
     if rc != 0:
         ck.obligation("TraceQL trees evaluated by the extracted segmented renderer (model/TqPieces.v)", False, out[-2000:])
         return
-    res, eqs = {}, {}
+    res, eqs, mres = {}, {}, {}
     for ln in out.splitlines():
         p = ln.split(" ")
         if p[0] == "t":
             res[int(p[1])] = like_pieces(p[2])
+        elif p[0] == "m":
+            mres[int(p[1])] = like_pieces(p[2]) if "/" in p[2] else p[2]
         elif p[0] == "p":
             eqs[(int(p[1]), int(p[2]))] = p[3] == "1"
     # ---- judgements
@@ -370,6 +429,22 @@ def run(ck, pairs, tag, describe, num_queries=None):
                   "; ".join(qtext(i)[:120] for i in mism[:3]) + " untranslatable: %s" % list(untrans.items())[:3])
     ck.obligation("every real TraceQL tree passes pok (%s): theorems traceql_statement_tokens / traceql_request_values_keep_statement_structure apply (%d trees)"
                   % (tag, len(sqls)), not notok, "; ".join(qtext(i)[:160] for i in notok[:3]))
+    # the planner MODEL of C11 (model/TraceqlPlan.v: what the value-independence theorems are about) on the same requests
+    mbad, nmodel = [], 0
+    for i, sql in sqls.items():
+        if i in mism or i in untrans_ast:
+            continue
+        m = mres.get(i)
+        nmodel += 1
+        if not isinstance(m, tuple) or m[2] != sql or not m[0] or canon(m[3]) != canon(res[i][3]):
+            mbad.append((i, m if not isinstance(m, tuple) else "statement differs"))
+    ck.obligation("TraceQL (%s): C11's planner model (TraceqlPlan.plan, the subject of traceql_planner_is_value_independent) plans the hostile requests into the statement and the value pieces of the real trees, and pok holds for the model's trees (%d requests)"
+                  % (tag, nmodel), not mbad and not untrans_ast,
+                  "; ".join("%s => %s" % (qtext(i)[:100], w) for i, w in mbad[:3]) + (" ast not translatable: %s" % list(untrans_ast.items())[:2] if untrans_ast else ""))
+    if mbad:
+        ck.violation({"property": "C10", "kind": "C11's TraceQL planner model and the real planners disagree on a hostile request (statement text or value pieces)",
+                      "traceql": qtext(mbad[0][0]), "model": str(mbad[0][1]),
+                      "broken": "correspondence model/TraceqlPlan.v vs clickhouse_transpiler on hostile strings"}, no_input=True)
     # pairs: the hostile tree is the marker tree with the marker replaced by the intended bytes in every value
     noteq, leaked, located, npairs, nobase = [], [], 0, 0, []
     by_site = {}
@@ -449,6 +524,6 @@ def run(ck, pairs, tag, describe, num_queries=None):
     t = ck.extra.setdefault("traceql_tree_level_tie", {})
     t[tag] = {"requests": len(reqs), "trees": len(sqls), "rejected_by_parser_or_planner": len(rejected), "pieces": npieces, "value_pieces": nvals,
               "raw_quoted_pieces": nqids, "pairs_request_baseline": npairs, "pairs_whose_value_is_located_in_a_value_piece": located,
-              "raw_fragments_kept_as_text": stats.get("raw_fallback", 0), "modes_not_dumped_by_harness_traceql": skipped_modes,
+              "raw_fragments_kept_as_text": stats.get("raw_fallback", 0), "requests_planned_by_the_model_TraceqlPlan": nmodel, "modes_not_dumped_by_harness_traceql": skipped_modes,
               "numbers_and_durations_as_text": num_hist, "per_site_[pairs,value_located]": by_site}
     ck.coverage["evaluations"] += len(sqls) + npairs
